@@ -124,6 +124,9 @@ def run(ctx):
     print(f"  [c18] layouts {time.time() - t0:.1f}s inputs={n_inputs}", flush=True)
     # ---- (2) single-piece edits (inputs with parse errors)
     ebases = edit_bases(ctx)
+    stride = int(os.environ.get("GV_LAYOUT_STRIDE", "1"))     # development knob, never set by ./gv (base_groups already recorded the cap)
+    if stride > 1:
+        ebases = ebases[::stride]
     ctx.bound("edit seeds", len(ebases))
     ctx.bound("edit alphabet", len(EDIT_ALPHA))
     n_edits = n_edit_err = 0
